@@ -350,3 +350,377 @@ Theorem C12_find_path_none :
           2 * ball_depth e nsf nsi < d) -> find_path_one e (lhf, nsf) (lhi, nsi) s = Ok None.
 Proof. exact @find_path_none. Qed.
 Print Assumptions C12_find_path_none.
+
+From V Require Import Base Tensor Graph GraphProofs GraphImpl Hash Def Paths BfsStep Bfs BfsRun BfsProofs PathsProofs Mitm MitmProofs PathRun MitmFind Interactive InteractiveBetween InstPerm InstSmall InstBfs InstPaths.
+
+(* END TO END as check_fp_case runs it (the ball computed by the BFS model, not assumed): hypotheses wf_perm_desc, NoColl, layer-size bounds *)
+Theorem C12_perm_e2e_valid :
+  forall (d : gdesc) (inv_mats : list (list (list BinNums.Z))) (e : path_env)
+           (batch : BinNums.Z) (depth : BinNums.N) (explore : BinNums.Z) 
+           (lh : list (list BinNums.Z)) (ns : nat) (s : state) (p : list nat),
+         wf_perm_desc d ->
+         env_of d inv_mats = Some e ->
+         NoCollOn (impl_of d) (Ustates d) ->
+         (forall (q : state) (k : nat),
+          BinInt.Z.lt (BinInt.Z.of_nat (length (layer state st_eq_dec (acts (pe_G e)) (q :: nil) k)))
+            (BinNums.Zpos
+               (BinNums.xO
+                  (BinNums.xO
+                     (BinNums.xO
+                        (BinNums.xO
+                           (BinNums.xO
+                              (BinNums.xO
+                                 (BinNums.xO
+                                    (BinNums.xO
+                                       (BinNums.xO
+                                          (BinNums.xO
+                                             (BinNums.xO
+                                                (BinNums.xO
+                                                   (BinNums.xI
+                                                      (BinNums.xO
+                                                         (BinNums.xO
+                                                            (BinNums.xO
+                                                               (BinNums.xI
+                                                                  (BinNums.xO
+                                                                     (BinNums.xI
+                                                                        (BinNums.xO
+                                                                        (BinNums.xO
+                                                                        (BinNums.xI
+                                                                        (BinNums.xO
+                                                                        (BinNums.xI
+                                                                        (BinNums.xO
+                                                                        (BinNums.xO
+                                                                        (BinNums.xI
+                                                                        (BinNums.xO
+                                                                        (BinNums.xI
+                                                                        (BinNums.xO
+                                                                        (BinNums.xI
+                                                                        (BinNums.xI
+                                                                        (BinNums.xO
+                                                                        (BinNums.xO
+                                                                        (BinNums.xO
+                                                                        (BinNums.xI
+                                                                        (BinNums.xO
+                                                                        (BinNums.xI
+                                                                        (BinNums.xI BinNums.xH))))))))))))))))))))))))))))))))))))))))) ->
+         (forall (q : state) (k : nat),
+          BinInt.Z.lt
+            (BinInt.Z.of_nat (length (layer state st_eq_dec (acts (pe_Ginv e)) (q :: nil) k)))
+            (BinNums.Zpos
+               (BinNums.xO
+                  (BinNums.xO
+                     (BinNums.xO
+                        (BinNums.xO
+                           (BinNums.xO
+                              (BinNums.xO
+                                 (BinNums.xO
+                                    (BinNums.xO
+                                       (BinNums.xO
+                                          (BinNums.xO
+                                             (BinNums.xO
+                                                (BinNums.xO
+                                                   (BinNums.xI
+                                                      (BinNums.xO
+                                                         (BinNums.xO
+                                                            (BinNums.xO
+                                                               (BinNums.xI
+                                                                  (BinNums.xO
+                                                                     (BinNums.xI
+                                                                        (BinNums.xO
+                                                                        (BinNums.xO
+                                                                        (BinNums.xI
+                                                                        (BinNums.xO
+                                                                        (BinNums.xI
+                                                                        (BinNums.xO
+                                                                        (BinNums.xO
+                                                                        (BinNums.xI
+                                                                        (BinNums.xO
+                                                                        (BinNums.xI
+                                                                        (BinNums.xO
+                                                                        (BinNums.xI
+                                                                        (BinNums.xI
+                                                                        (BinNums.xO
+                                                                        (BinNums.xO
+                                                                        (BinNums.xO
+                                                                        (BinNums.xI
+                                                                        (BinNums.xO
+                                                                        (BinNums.xI
+                                                                        (BinNums.xI BinNums.xH))))))))))))))))))))))))))))))))))))))))) ->
+         BinInt.Z.le (BinNums.Zpos BinNums.xH) batch ->
+         fp_ball e batch depth explore (g_central d) = Ok (lh, ns) ->
+         Ustates d s ->
+         find_path_one e (lh, ns) (lh, ns) s = Ok (Some p) ->
+         run state (acts (impl_of d)) s p = Some (g_central d) /\
+         dist_is state (acts (impl_of d)) (s :: nil) (g_central d) (length p) /\
+         length p <= 2 * (ns - 1).
+Proof. exact @find_path_perm_e2e_valid. Qed.
+Print Assumptions C12_perm_e2e_valid.
+
+(* n <= 14, single-word identity hash: NO hash and NO size hypothesis - a returned sequence replays to the central state, is a shortest path, of length <= 2*depth *)
+Theorem C12_perm_e2e_valid_closed :
+  forall (d : gdesc) (inv_mats : list (list (list BinNums.Z))) (e : path_env)
+           (batch : BinNums.Z) (depth : BinNums.N) (explore : BinNums.Z) 
+           (lh : list (list BinNums.Z)) (ns : nat) (s : state) (p : list nat),
+         wf_perm_desc d ->
+         env_of d inv_mats = Some e ->
+         g_hasher d = HIdentity ->
+         single_word d ->
+         desc_n d <= 14 ->
+         BinInt.Z.le (BinNums.Zpos BinNums.xH) batch ->
+         fp_ball e batch depth explore (g_central d) = Ok (lh, ns) ->
+         Ustates d s ->
+         find_path_one e (lh, ns) (lh, ns) s = Ok (Some p) ->
+         run state (acts (impl_of d)) s p = Some (g_central d) /\
+         dist_is state (acts (impl_of d)) (s :: nil) (g_central d) (length p) /\
+         length p <= 2 * (ns - 1).
+Proof. exact @find_path_perm_e2e_valid_closed. Qed.
+Print Assumptions C12_perm_e2e_valid_closed.
+
+(* within twice the depth a path IS returned and it is shortest (closed form) *)
+Theorem C12_perm_e2e_shortest_closed :
+  forall (d : gdesc) (inv_mats : list (list (list BinNums.Z))) (e : path_env)
+           (batch : BinNums.Z) (depth : BinNums.N) (explore : BinNums.Z) 
+           (lh : list (list BinNums.Z)) (ns : nat) (s : state) (k : nat),
+         wf_perm_desc d ->
+         env_of d inv_mats = Some e ->
+         g_hasher d = HIdentity ->
+         single_word d ->
+         desc_n d <= 14 ->
+         BinInt.Z.le (BinNums.Zpos BinNums.xH) batch ->
+         fp_ball e batch depth explore (g_central d) = Ok (lh, ns) ->
+         Ustates d s ->
+         dist_is state (acts (impl_of d)) (s :: nil) (g_central d) k ->
+         k <= 2 * (ns - 1) ->
+         exists p : list nat,
+           find_path_one e (lh, ns) (lh, ns) s = Ok (Some p) /\
+           length p = k /\ run state (acts (impl_of d)) s p = Some (g_central d).
+Proof. exact @find_path_perm_e2e_shortest_closed. Qed.
+Print Assumptions C12_perm_e2e_shortest_closed.
+
+(* nothing is returned only beyond twice the depth (closed form) *)
+Theorem C12_perm_e2e_none_closed :
+  forall (d : gdesc) (inv_mats : list (list (list BinNums.Z))) (e : path_env)
+           (batch : BinNums.Z) (depth : BinNums.N) (explore : BinNums.Z) 
+           (lh : list (list BinNums.Z)) (ns : nat) (s : state),
+         wf_perm_desc d ->
+         env_of d inv_mats = Some e ->
+         g_hasher d = HIdentity ->
+         single_word d ->
+         desc_n d <= 14 ->
+         BinInt.Z.le (BinNums.Zpos BinNums.xH) batch ->
+         fp_ball e batch depth explore (g_central d) = Ok (lh, ns) ->
+         Ustates d s ->
+         (forall k : nat,
+          dist_is state (acts (impl_of d)) (s :: nil) (g_central d) k -> 2 * (ns - 1) < k) ->
+         find_path_one e (lh, ns) (lh, ns) s = Ok None.
+Proof. exact @find_path_perm_e2e_none_closed. Qed.
+Print Assumptions C12_perm_e2e_none_closed.
+
+From V Require Import Base Tensor Graph GraphProofs GraphImpl Hash Matrix MatrixProofs Def Paths BfsStep Bfs BfsRun BfsProofs PathsProofs Mitm MitmProofs PathRun MitmFind InstShared InstMatrix InstMatrixAlgebra InstMatrixBfs.
+
+(* END TO END for matrix groups: hypotheses wf_matrix_core, wf_inv_mats, NoColl and the layer-size bounds *)
+Theorem C12_matrix_find_path_valid :
+  forall (d : gdesc) (inv_mats : list (list (list BinNums.Z))) (e : path_env),
+         wf_matrix_core d = true ->
+         wf_inv_mats d inv_mats = true ->
+         env_of d inv_mats = Some e ->
+         NoCollMat d ->
+         (forall (q : state) (k : nat),
+          BinInt.Z.lt (BinInt.Z.of_nat (length (layer state st_eq_dec (acts (pe_G e)) (q :: nil) k)))
+            (BinNums.Zpos
+               (BinNums.xO
+                  (BinNums.xO
+                     (BinNums.xO
+                        (BinNums.xO
+                           (BinNums.xO
+                              (BinNums.xO
+                                 (BinNums.xO
+                                    (BinNums.xO
+                                       (BinNums.xO
+                                          (BinNums.xO
+                                             (BinNums.xO
+                                                (BinNums.xO
+                                                   (BinNums.xI
+                                                      (BinNums.xO
+                                                         (BinNums.xO
+                                                            (BinNums.xO
+                                                               (BinNums.xI
+                                                                  (BinNums.xO
+                                                                     (BinNums.xI
+                                                                        (BinNums.xO
+                                                                        (BinNums.xO
+                                                                        (BinNums.xI
+                                                                        (BinNums.xO
+                                                                        (BinNums.xI
+                                                                        (BinNums.xO
+                                                                        (BinNums.xO
+                                                                        (BinNums.xI
+                                                                        (BinNums.xO
+                                                                        (BinNums.xI
+                                                                        (BinNums.xO
+                                                                        (BinNums.xI
+                                                                        (BinNums.xI
+                                                                        (BinNums.xO
+                                                                        (BinNums.xO
+                                                                        (BinNums.xO
+                                                                        (BinNums.xI
+                                                                        (BinNums.xO
+                                                                        (BinNums.xI
+                                                                        (BinNums.xI BinNums.xH))))))))))))))))))))))))))))))))))))))))) ->
+         (forall (q : state) (k : nat),
+          BinInt.Z.lt
+            (BinInt.Z.of_nat (length (layer state st_eq_dec (acts (pe_Ginv e)) (q :: nil) k)))
+            (BinNums.Zpos
+               (BinNums.xO
+                  (BinNums.xO
+                     (BinNums.xO
+                        (BinNums.xO
+                           (BinNums.xO
+                              (BinNums.xO
+                                 (BinNums.xO
+                                    (BinNums.xO
+                                       (BinNums.xO
+                                          (BinNums.xO
+                                             (BinNums.xO
+                                                (BinNums.xO
+                                                   (BinNums.xI
+                                                      (BinNums.xO
+                                                         (BinNums.xO
+                                                            (BinNums.xO
+                                                               (BinNums.xI
+                                                                  (BinNums.xO
+                                                                     (BinNums.xI
+                                                                        (BinNums.xO
+                                                                        (BinNums.xO
+                                                                        (BinNums.xI
+                                                                        (BinNums.xO
+                                                                        (BinNums.xI
+                                                                        (BinNums.xO
+                                                                        (BinNums.xO
+                                                                        (BinNums.xI
+                                                                        (BinNums.xO
+                                                                        (BinNums.xI
+                                                                        (BinNums.xO
+                                                                        (BinNums.xI
+                                                                        (BinNums.xI
+                                                                        (BinNums.xO
+                                                                        (BinNums.xO
+                                                                        (BinNums.xO
+                                                                        (BinNums.xI
+                                                                        (BinNums.xO
+                                                                        (BinNums.xI
+                                                                        (BinNums.xI BinNums.xH))))))))))))))))))))))))))))))))))))))))) ->
+         forall (lhf : list (list BinNums.Z)) (nsf : nat) (lhi : list (list BinNums.Z)) 
+           (nsi : nat) (s : state) (p : list nat),
+         balls_ok e lhf nsf lhi nsi ->
+         Umat d s ->
+         find_path_one e (lhf, nsf) (lhi, nsi) s = Ok (Some p) ->
+         run state (acts (pe_G e)) s p = Some (central (pe_G e)) /\
+         dist_is state (acts (pe_G e)) (s :: nil) (central (pe_G e)) (length p) /\
+         length p <= 2 * ball_depth e nsf nsi.
+Proof. exact @matrix_find_path_valid. Qed.
+Print Assumptions C12_matrix_find_path_valid.
+
+(* shortest within twice the depth, matrix groups *)
+Theorem C12_matrix_find_path_shortest :
+  forall (d : gdesc) (inv_mats : list (list (list BinNums.Z))) (e : path_env),
+         wf_matrix_core d = true ->
+         wf_inv_mats d inv_mats = true ->
+         env_of d inv_mats = Some e ->
+         NoCollMat d ->
+         (forall (q : state) (k : nat),
+          BinInt.Z.lt (BinInt.Z.of_nat (length (layer state st_eq_dec (acts (pe_G e)) (q :: nil) k)))
+            (BinNums.Zpos
+               (BinNums.xO
+                  (BinNums.xO
+                     (BinNums.xO
+                        (BinNums.xO
+                           (BinNums.xO
+                              (BinNums.xO
+                                 (BinNums.xO
+                                    (BinNums.xO
+                                       (BinNums.xO
+                                          (BinNums.xO
+                                             (BinNums.xO
+                                                (BinNums.xO
+                                                   (BinNums.xI
+                                                      (BinNums.xO
+                                                         (BinNums.xO
+                                                            (BinNums.xO
+                                                               (BinNums.xI
+                                                                  (BinNums.xO
+                                                                     (BinNums.xI
+                                                                        (BinNums.xO
+                                                                        (BinNums.xO
+                                                                        (BinNums.xI
+                                                                        (BinNums.xO
+                                                                        (BinNums.xI
+                                                                        (BinNums.xO
+                                                                        (BinNums.xO
+                                                                        (BinNums.xI
+                                                                        (BinNums.xO
+                                                                        (BinNums.xI
+                                                                        (BinNums.xO
+                                                                        (BinNums.xI
+                                                                        (BinNums.xI
+                                                                        (BinNums.xO
+                                                                        (BinNums.xO
+                                                                        (BinNums.xO
+                                                                        (BinNums.xI
+                                                                        (BinNums.xO
+                                                                        (BinNums.xI
+                                                                        (BinNums.xI BinNums.xH))))))))))))))))))))))))))))))))))))))))) ->
+         (forall (q : state) (k : nat),
+          BinInt.Z.lt
+            (BinInt.Z.of_nat (length (layer state st_eq_dec (acts (pe_Ginv e)) (q :: nil) k)))
+            (BinNums.Zpos
+               (BinNums.xO
+                  (BinNums.xO
+                     (BinNums.xO
+                        (BinNums.xO
+                           (BinNums.xO
+                              (BinNums.xO
+                                 (BinNums.xO
+                                    (BinNums.xO
+                                       (BinNums.xO
+                                          (BinNums.xO
+                                             (BinNums.xO
+                                                (BinNums.xO
+                                                   (BinNums.xI
+                                                      (BinNums.xO
+                                                         (BinNums.xO
+                                                            (BinNums.xO
+                                                               (BinNums.xI
+                                                                  (BinNums.xO
+                                                                     (BinNums.xI
+                                                                        (BinNums.xO
+                                                                        (BinNums.xO
+                                                                        (BinNums.xI
+                                                                        (BinNums.xO
+                                                                        (BinNums.xI
+                                                                        (BinNums.xO
+                                                                        (BinNums.xO
+                                                                        (BinNums.xI
+                                                                        (BinNums.xO
+                                                                        (BinNums.xI
+                                                                        (BinNums.xO
+                                                                        (BinNums.xI
+                                                                        (BinNums.xI
+                                                                        (BinNums.xO
+                                                                        (BinNums.xO
+                                                                        (BinNums.xO
+                                                                        (BinNums.xI
+                                                                        (BinNums.xO
+                                                                        (BinNums.xI
+                                                                        (BinNums.xI BinNums.xH))))))))))))))))))))))))))))))))))))))))) ->
+         forall (lhf : list (list BinNums.Z)) (nsf : nat) (lhi : list (list BinNums.Z)) 
+           (nsi : nat) (s : state) (k : nat),
+         balls_ok e lhf nsf lhi nsi ->
+         Umat d s ->
+         dist_is state (acts (pe_G e)) (s :: nil) (central (pe_G e)) k ->
+         k <= 2 * ball_depth e nsf nsi ->
+         exists p : list nat,
+           find_path_one e (lhf, nsf) (lhi, nsi) s = Ok (Some p) /\
+           length p = k /\ run state (acts (pe_G e)) s p = Some (central (pe_G e)).
+Proof. exact @matrix_find_path_shortest. Qed.
+Print Assumptions C12_matrix_find_path_shortest.
